@@ -827,7 +827,24 @@ class TransferManager(BaseManager):
             was received
         :param request: transfer request object for the given transfer
         """
-        await transfer.state.initialize()
+        if not await transfer.state.initialize():
+            # The transfer got aborted, paused, ... between receiving the request
+            # and this task getting to run (those operations can take a while
+            # when a file needs to be removed): the transfer should not be
+            # started anymore, let the uploader know
+            logger.debug(
+                "not initializing download, state has changed : %s", transfer)
+            try:
+                await peer_connection.send_message(
+                    PeerTransferReply.Request(
+                        ticket=request.ticket,
+                        allowed=False,
+                        reason=FailReason.CANCELLED
+                    )
+                )
+            except ConnectionWriteError:
+                pass
+            return
 
         transfer.filesize = request.filesize
 
